@@ -454,6 +454,18 @@ func runC16(w *mc.Worker) {
 			})
 		})
 	}
+	// send-all scoping: every bounded source tree is statically valid
+	sn := 3
+	if w.Tier == "thorough" {
+		sn = 4
+	}
+	runScopeSpace(w, fmt.Sprintf("sendall-scopes-n%d", sn), sn, func(prog *gen.Program, text string, bounded bool) {
+		if !bounded {
+			w.Count("scope-trees-not-bounded (not judged)", 1)
+			return
+		}
+		c16Judge(w, prog, nil)
+	})
 	// statement sequences: what one statement leaves behind in the checker must not leak into the next
 	seqOps := []func() gen.Stmt{
 		func() gen.Stmt { return saveAll("USD", "a") },
